@@ -6,7 +6,8 @@ from ..ref import secp, b58, compact as RC
 from .. import libx
 
 from bitcoin.core.key import CPubKey
-from bitcoin.wallet import CBitcoinSecret
+from bitcoin.wallet import CBitcoinSecret, CBitcoinSecretError
+from bitcoin.base58 import Base58Error
 
 ID = 'C13'
 LEVEL = 'exploration'
@@ -56,6 +57,20 @@ def check_key(case):
                 want_wif, bytes(k2)[:32].hex(), k2.is_compressed, bytes(k2.pub).hex()))
         if str(k2) != want_wif:
             raise Violation('wif/roundtrip-text', 'str(CBitcoinSecret(text)) != text')
+        # the same secret under another chain's prefix is not a secret of THIS chain; a corrupted character is a checksum error
+        for other in libx.CHAINS:
+            vb = RC.CHAINS[other]['secret']
+            if vb == RC.CHAINS[chain]['secret']:
+                continue
+            foreign = b58.check_encode(vb, x.to_bytes(32, 'big') + (b'\x01' if comp else b''))
+            r = libx.call('wif/foreign', CBitcoinSecret, foreign, allowed=(CBitcoinSecretError,))
+            if r[0] == 'ok':
+                raise Violation('wif/foreign-chain-accepted', 'CBitcoinSecret(%s) (a %s key) accepted under %s' % (foreign, other, chain))
+        pos = case.get('corrupt', 7) % len(want_wif)
+        bad = want_wif[:pos] + ('2' if want_wif[pos] != '2' else '3') + want_wif[pos + 1:]
+        r = libx.call('wif/corrupt', CBitcoinSecret, bad, allowed=(Base58Error, CBitcoinSecretError))
+        if r[0] == 'ok':
+            raise Violation('wif/corrupt-accepted', 'CBitcoinSecret(%s) (one character of %s changed) accepted' % (bad, want_wif))
     finally:
         libx.select('mainnet')
     return {'nt': x not in (1,) and (x < 2 ** 248 or chain != 'mainnet'), 'cls': ['key', 'chain-' + chain, 'lead0' if x < 2 ** 248 else 'full'],
@@ -102,6 +117,14 @@ def check_verify(case):
     cands = [('valid', r, s), ('twin', r, n - s), ('other-digest', r2, s2), ('r0', 0, s), ('s0', r, 0), ('rn', n, s), ('sn', r, n),
              ('r+n', r + n, s), ('random', rr % n or 1, ss % n or 1), ('s+n', r, s + n)]
     cls = ['verify']
+    # byte strings that are not a DER SEQUENCE of two INTEGERs under any reading (empty, cut short, wrong tags): never accepted
+    good = secp.der(r, s)
+    for tag, junk in (('empty', b''), ('cut1', good[:-1]), ('cut-half', good[:len(good) // 2]), ('tag31', b'\x31' + good[1:]),
+                      ('only-header', good[:2]), ('int-tag', good[:2] + b'\x03' + good[3:]), ('zeros', bytes(len(good)))):
+        got = libx.call('verify-junk', pk.verify, z, junk)[1]
+        if got is not False:
+            raise Violation('verify/unparseable-%s-accepted' % tag, 'CPubKey.verify(digest, %s) = %r for bytes that are not a DER signature' % (junk.hex(), got))
+        cls.append('junk:' + tag)
     for tag, a, b in cands:
         der = secp.der(a, b)
         if secp.parse_der_strict(der) is None:
